@@ -346,3 +346,40 @@ pub fn verif_all_mutually_exclusive(schemas: &[Schema], defs: &[(String, Schema)
         .collect();
     crate::util::all_mutually_exclusive(schemas, &defs)
 }
+
+// ---- defaults (defaults.rs / value.rs) ----
+
+impl TypeSpace {
+    /// `TypeEntry::validate_value` of entry `id` on `v`:
+    /// `ok:Intrinsic` | `ok:Specific` | `ok:Generic(<DefaultImpl>)` | `err` (a panic is left to the caller).
+    pub fn verif_validate_value(&self, id: u64, v: &Value) -> String {
+        let entry = self.id_to_entry.get(&TypeId(id)).expect("verif: no such type id");
+        match entry.validate_value(self, v) {
+            Ok(kind) => format!("ok:{:?}", kind),
+            Err(_) => "err".to_string(),
+        }
+    }
+
+    /// `TypeEntry::output_value` of entry `id` on `v` with scope `super::`.
+    pub fn verif_output_value(&self, id: u64, v: &Value) -> Option<proc_macro2::TokenStream> {
+        let entry = self.id_to_entry.get(&TypeId(id)).expect("verif: no such type id");
+        entry.output_value(self, v, &quote::quote! { super:: })
+    }
+
+    /// `TypeEntry::default_fn` of entry `id` on `v`: the function path and the custom item, if any.
+    pub fn verif_default_fn(
+        &self,
+        id: u64,
+        v: &Value,
+        type_name: &str,
+        prop_name: &str,
+    ) -> (String, Option<proc_macro2::TokenStream>) {
+        let entry = self.id_to_entry.get(&TypeId(id)).expect("verif: no such type id");
+        entry.default_fn(v, self, type_name, prop_name)
+    }
+
+    /// Id of the named type `name`, if any.
+    pub fn verif_name_to_id(&self, name: &str) -> Option<u64> {
+        self.name_to_id.get(name).map(|id| id.0)
+    }
+}
